@@ -92,6 +92,7 @@ def run(ctx, repo):
     ctx.rule('I2', 'stores on a shared instance outside __init__ are independent of the call arguments (idempotent lazy cache)')
     ctx.rule('I6', 'no reachable function changes a row of a shared module-level table in place (through an alias or directly), restored or not')
     ctx.rule('I7', 'no reachable function assigns an attribute of an imported module (process-wide setting) at call time')
+    ctx.rule('GEN', 'no module-level one-shot iterator, mutable default changed in place or loop variable surviving a handled error in reachable code')
     ctx.rule('I8', 'no change of the per-thread decimal context in the modules of the reachable functions')
     ctx.rule('I9', 'no module-level container is changed in place by reachable code while reachable code iterates it')
     ctx.rule('I3', 'a shared container is touched only by single atomic operations; no iterator/view is held across a mutation')
@@ -165,6 +166,15 @@ def run(ctx, repo):
                                     '%s assigns `%s`, an attribute of an imported module, while serving a call: the setting is process-wide, so a '
                                     'save / install / restore around one call is undone or overwritten by a concurrent call (not re-entrant across '
                                     'threads)' % (q_, ast.unparse(t)), 'two forced pre-emptions: A installs, B saves and installs, A restores, B runs')
+    # ---- GEN hazards (sa/hazards.py) over the reachable functions: a module-level one-shot iterator shared by all callers is also a
+    # thread hazard (two first calls split it), as is a mutable default changed in place
+    from ..hazards import scan as hz_scan
+    hz, _n = hz_scan(repo, {k for k, _c, _k in seen})
+    for rel_, q_, rule_, line_, msg_, key_ in hz:
+        if rule_ in ('ONESHOT', 'MUTDEF', 'STALE'):
+            n_sites += 1
+            ctx.finding('GEN', '%s::%s::%s %s' % (rel_, q_, rule_, key_), rel_, line_, msg_ + '.  Under threads two callers share (and split) it',
+                        'two concurrent first calls')
     # ---- I8 per-thread arithmetic context: decimal.getcontext() / setcontext() / localcontext() settings made at import or in one call
     # apply to the thread that made them only; every other thread computes with the default context
     reach_rels = {k[0] for k, _c, _k in seen}
